@@ -83,7 +83,7 @@ def make_matrix(kind, n, rng, cplx=False, cond=100.0):
     if kind in ("upper", "lower"):
         a = rand_unit(rng, (n, n), cplx) * 0.5
         a = np.triu(a, 1)
-        d = spectrum(rng, n, min(cond, 10.0), "mixed")
+        d = spectrum(rng, n, max(1.2, min(cond, 10.0) / 3.0), "mixed")   # leaves room for the off-diagonal part
         for _ in range(40):
             m = a + np.diag(d)
             if np.linalg.cond(m) <= cond:
